@@ -52,7 +52,7 @@ def fields(d, filename=None):
 DEFAULT = {"file": "test.c", "login": "marvin", "mail": "marvin@42.fr", "created": "2020/01/01 00:00:00", "updated": "2020/01/01 00:00:00",
            "cby": "marvin", "uby": "marvin"}
 
-MUTATIONS = (["H1", "H2", "H3a", "H3b", "H3c", "H3d", "H3e", "H3f", "H3g", "H4", "H5"] + ["H6.%d" % k for k in range(1, 12)] +
+MUTATIONS = (["H1", "H2", "H3a", "H3b", "H3c", "H3d", "H3e", "H3f", "H3g", "H3h", "H3i", "H3j", "H4", "H5"] + ["H6.%d" % k for k in range(1, 12)] +
              ["H7a", "H7b", "H7c", "H7d", "H8", "H9", "H10", "H11a", "H11b", "H11c"])
 
 
@@ -72,6 +72,9 @@ def mutate(lines, mid, body_first_line="int\tft_x(void);"):
         first = {"H3c": "DECLARE_LIST(g_list);", "H3d": "_Static_assert(sizeof(int) == 4, \"int\");", "H3e": "int\tg_before;",
                  "H3f": "typedef int\tt_before;", "H3g": "ft_setup(1, 2);"}[mid]
         return [first, ""] + L
+    if mid in ("H3h", "H3i", "H3j"):   # the same, with the header glued directly under the line of code
+        first = {"H3h": "DECLARE_LIST(g_list);", "H3i": "int\tg_before;", "H3j": "#include <unistd.h>"}[mid]
+        return [first] + L
     if mid == "H4":
         return ["//" + x[2:-2] for x in L]
     if mid == "H5":
